@@ -58,6 +58,15 @@ def gen(tier, rnd):
         L.append(cookiew(octs(rnd, 1, 10, '='), octs(rnd, 0, 12), path=opt(rnd, lambda: octs(rnd, 0, 8)), domain=opt(rnd, lambda: octs(rnd, 0, 8)),
                          maxage=opt(rnd, lambda: rnd.randrange(2 ** 31)), expires=opt(rnd, lambda: rnd.randrange(0, 4102444800), 0.2),
                          secure=rnd.random() < .5, httponly=rnd.random() < .5, ext=ext))
+    # Expires at calendar edges: the days around every new year (where week-based, two-digit or local-time year arithmetic goes
+    # wrong), the end of February in leap and non-leap years, month ends
+    import calendar
+    for y in list(range(1970, 2101, 3 if tier == 'quick' else 1)) + [2000, 2024, 2025, 2026, 2038, 2100]:
+        ny = calendar.timegm((y, 1, 1, 0, 0, 0))
+        for d in (-3, -2, -1, 0, 1, 2, 3):
+            L.append(cookiew('e', 'v', expires=max(0, ny + d * 86400 + rnd.randrange(86400))))
+        for (mo, dd) in ((2, 28), (3, 1), (12, 31)):
+            L.append(cookiew('e', 'v', expires=calendar.timegm((y, mo, dd, 23, 59, 59))))
     # Max-Age boundaries
     for v in [0, 9, 10, 2147483646, 2147483647]:
         L.append(cookiew('n', 'v', maxage=v))
@@ -127,10 +136,10 @@ def classify(line, out):
     w = line.split()
     return (w[0], out[:40], len(line) // 24)
 
-RULE = ('cookies: every subset of {Path,Domain,Max-Age,Expires,Secure,HttpOnly} x 0..3 extension attributes, seeded field values over cookie-octets, Max-Age boundaries; '
+RULE = ('cookies: every subset of {Path,Domain,Max-Age,Expires,Secure,HttpOnly} x 0..3 extension attributes, seeded field values over cookie-octets, Max-Age boundaries, Expires on the 7 days around every (quick: every third) new year 1970..2100, the end of February and month ends; '
         'raw texts: every truncation of stress strings + seeded mutations in exact-size buffers; jars: seeded pair lists with repeated names/pairs. '
         'non-trivial = distinct (op, outcome prefix, size class)')
-ASSUME = ['Expires values (date library) are outside the model: cookies carrying one are answered unspecified by the model, the direct oracle still checks their round trip on the implementation',
+ASSUME = ['Expires values are written and read by the date model (Model/Date.lean, Props/C16Date parse_write); an Expires text outside the canonical RFC 1123 form is outside the model (answered unspecified) and only the direct oracle checks its round trip on the implementation',
           'extension attribute names do not start (case-insensitively) with a built-in attribute name and contain no "="; values contain no ";" (no escaping exists)',
           'unordered_map iteration order arbitrary: jar contents compared as sets']
 
